@@ -320,4 +320,23 @@ def pointsOf [LT α] [DecidableLT α] (g : Geom α) : Except Fault (List (Pt α)
   let s ← init g
   drain g n s
 
+/-- the closure state after `n` calls -/
+def runN [LT α] [DecidableLT α] (g : Geom α) : Nat → ItSt → Except Fault ItSt
+  | 0, s => .ok s
+  | n+1, s => do
+    let (_, s') ← next g s
+    runN g n s'
+
+/-- the closure state after exactly `Len()` calls from a fresh iterator -/
+def afterLen [LT α] [DecidableLT α] (g : Geom α) : Except Fault ItSt := do
+  let n ← lenG g
+  let s ← init g
+  runN g n s
+
+/-- what the first call beyond `Len()` returns (the harness's `beyond` probe; `C04_points_exhausted`) -/
+def beyondLen [LT α] [DecidableLT α] (g : Geom α) : Except Fault (Pt α) := do
+  let s ← afterLen g
+  let (v, _) ← next g s
+  pure v
+
 end GeomV.C04
